@@ -2,7 +2,6 @@ package redis
 
 import (
 	"bytes"
-	"strings"
 	"sync"
 
 	redigo "github.com/gomodule/redigo/redis"
@@ -100,7 +99,7 @@ func (s *sub) Init(clientIDs []string) error {
 			if err != nil {
 				return err
 			}
-			s.memStore.SubscribeLocked(strings.TrimLeft(v, subPrefix), sub)
+			s.memStore.SubscribeLocked(v, sub)
 		}
 	}
 	return nil
@@ -136,7 +135,7 @@ func (s *sub) Unsubscribe(clientID string, topics ...string) error {
 	defer s.mu.Unlock()
 	c := s.pool.Get()
 	defer c.Close()
-	_, err := c.Do("hdel", subPrefix+clientID, topics)
+	_, err := c.Do("hdel", redigo.Args{}.Add(subPrefix+clientID).AddFlat(topics)...)
 	if err != nil {
 		return err
 	}
